@@ -81,6 +81,85 @@ def uploadDir (chunk : Nat) (f : Filter) : Entries → Except Err Entries
     else uploadDir chunk f rest
 end
 
+/-! ### transfers onto a destination that already exists -/
+
+/-- the entry called `n`, if any (`os.path.isdir/isfile(join(dst, n))`) -/
+def Entries.find : Entries → String → Option Tree
+  | .nil, _ => none
+  | .cons m t rest, n => if m = n then some t else rest.find n
+
+/-- create or replace the entry called `n` -/
+def Entries.set : Entries → String → Tree → Entries
+  | .nil, n, t => .cons n t .nil
+  | .cons m d rest, n, t => if m = n then .cons m t rest else .cons m d (rest.set n t)
+
+def Entries.append : Entries → Entries → Entries
+  | .nil, b => b
+  | .cons n t rest, b => .cons n t (rest.append b)
+
+def Entries.names : Entries → List String
+  | .nil => []
+  | .cons n _ rest => n :: rest.names
+
+mutual
+/-- `upload` when the destination path may already exist (`dst`): a regular file is opened with `"wb"`, i.e.
+truncated and rewritten whatever it held; an existing directory is kept (`makedirs` only `if not isdir`) and
+each transferred entry is created or overwritten inside it, other entries stay; a file where a directory is
+needed or the reverse is an `OSError` of the real calls and is not modelled. -/
+def uploadOver (chunk : Nat) (f : Filter) (ignoreInvalid : Bool) : Tree → Option Tree → Except Err (Option Tree)
+  | .dir es, dst =>
+    match dst with
+    | none =>
+      match uploadDirOver chunk f es .nil with
+      | .ok es' => .ok (some (.dir es'))
+      | .error e => .error e
+    | some (.dir ds) =>
+      match uploadDirOver chunk f es ds with
+      | .ok es' => .ok (some (.dir es'))
+      | .error e => .error e
+    | some _ => .error .notModelled
+  | .file b, dst =>
+    match dst with
+    | none => .ok (some (.file (copyFile chunk b)))
+    | some (.file _) => .ok (some (.file (copyFile chunk b)))
+    | some _ => .error .notModelled
+  | .other, dst => if ignoreInvalid then .ok dst else .error .valueError
+/-- `upload_dir` into the directory whose entries are `ds` -/
+def uploadDirOver (chunk : Nat) (f : Filter) : Entries → Entries → Except Err Entries
+  | .nil, ds => .ok ds
+  | .cons n t rest, ds =>
+    if passes f n then
+      match uploadOver chunk f true t (ds.find n) with
+      | .error e => .error e
+      | .ok (some t') => uploadDirOver chunk f rest (ds.set n t')
+      | .ok none => uploadDirOver chunk f rest ds
+    else uploadDirOver chunk f rest ds
+end
+
+mutual
+/-- same shape: the same names in the same order, files where files are and directories where directories are;
+contents free -/
+def sameShape : Tree → Tree → Bool
+  | .file _, .file _ => true
+  | .dir es, .dir ds => sameShapeEntries es ds
+  | .other, .other => true
+  | _, _ => false
+def sameShapeEntries : Entries → Entries → Bool
+  | .nil, .nil => true
+  | .cons n t rest, .cons m d ds => n == m && sameShape t d && sameShapeEntries rest ds
+  | _, _ => false
+end
+
+mutual
+/-- no directory lists a name twice (true of every filesystem) -/
+def distinctNames : Tree → Bool
+  | .dir es => distinctEntries es
+  | _ => true
+def distinctEntries : Entries → Bool
+  | .nil => true
+  | .cons n t rest => !rest.names.contains n && distinctNames t && distinctEntries rest
+end
+
 /-- `download` is the same procedure with the two sides swapped -/
 def download (chunk : Nat) (f : Filter) (ignoreInvalid : Bool) (t : Tree) : Except Err (Option Tree) :=
   upload chunk f ignoreInvalid t
